@@ -1,6 +1,7 @@
 package main
 
 import (
+	"sort"
 	"fmt"
 	"go/types"
 	"strings"
@@ -141,6 +142,13 @@ func (e *Enc) applyContractVars(x ssa.Value, name string, fc *FuncC, vars map[st
 			st.heap[m.heapName] = e.def(m.heapName, tStore(h, m.ref, cell))
 		}
 	}
+	// channel logs are append-only
+	for _, m := range mods {
+		if m.t.Chan && strings.HasPrefix(m.heapName, "G.chan.log.") {
+			ref := m.ref
+			e.appendOnly(pre.heapGet(e, "G.chan.nsent", arrSort(sInt)), pre.heapGet(e, m.heapName, m.heapSort), st.heapGet(e, "G.chan.nsent", arrSort(sInt)), st.heapGet(e, m.heapName, m.heapSort), &ref)
+		}
+	}
 	// allocation may have advanced
 	na := e.havoc("alloc", sInt)
 	e.assume(Term{app(">=", na.S, st.alloc.S), sBool})
@@ -228,7 +236,8 @@ func (e *Enc) builtin(x *ssa.Call, b *ssa.Builtin, st *State) {
 	case "copy":
 		e.copyOp(x, st)
 	case "close":
-		e.otherInstr(x, st)
+		// closing a channel has no effect on the modelled state (the ghost log records sends only)
+		return
 	default:
 		panic(unsupported{"builtin " + b.Name()})
 	}
@@ -239,7 +248,7 @@ func (e *Enc) builtin(x *ssa.Call, b *ssa.Builtin, st *State) {
 // fresh backing array is allocated, the old elements copied and the new ones added.
 func (e *Enc) appendOp(x *ssa.Call, st *State) {
 	args := x.Call.Args
-	s := e.term(args[0])
+	s := e.def("appdst", e.term(args[0])) // named: the term occurs in quantifier patterns below
 	el := x.Type().Underlying().(*types.Slice).Elem()
 	es := e.reg.sortOf(el)
 	name := elemHeapName(el)
@@ -248,7 +257,7 @@ func (e *Enc) appendOp(x *ssa.Call, st *State) {
 	if isString(args[1].Type()) {
 		panic(unsupported{"append of string bytes"})
 	}
-	t := e.term(args[1])
+	t := e.def("apparg", e.term(args[1])) // named: the term occurs in quantifier patterns below
 	tl := Term{app("Slice_len", t.S), sInt}
 	h := st.heapGet(e, name, srt)
 	sarr := Term{app("Slice_arr", s.S), sInt}
@@ -286,6 +295,10 @@ func (e *Enc) appendOp(x *ssa.Call, st *State) {
 	e.assume(Term{fmt.Sprintf("(forall ((%s Int)) (! (=> (and (<= 0 %s) (< %s %s)) (= (select %s (+ %s %s)) (select %s (sidx (Slice_off %s) %s)))) :pattern ((select %s (sidx (Slice_off %s) %s)))))",
 		q2, q2, q2, tl.S, na.S, sl.S, q2, srcArr.S, t.S, q2, srcArr.S, t.S, q2), sBool})
 	e.assume(tImp(tEq(tl, tInt(1)), tEq(tSelect(na, sl), tSelect(srcArr, Term{app("Slice_off", t.S), sInt}))))
+	// the same two facts as one definition by cases, triggered by any read of the new array
+	q3 := e.freshName("q_i")
+	e.assume(Term{fmt.Sprintf("(forall ((%s Int)) (! (=> (and (<= 0 %s) (< %s %s)) (= (select %s %s) (ite (< %s %s) (select %s (sidx (Slice_off %s) %s)) (select %s (sidx (Slice_off %s) (- %s %s)))))) :pattern ((select %s %s))))",
+		q3, q3, q3, newLen.S, na.S, q3, q3, sl.S, oldArr.S, s.S, q3, srcArr.S, t.S, q3, sl.S, na.S, q3), sBool})
 	st.heap[name] = e.def(name, tIte(fits, tStore(h, sarr, inpl), tStore(h, r, na)))
 	e.setVal(x, tIte(fits, Term{app("mk_Slice", sarr.S, soff.S, newLen.S, scap.S), sSlice}, Term{app("mk_Slice", r.S, "0", newLen.S, nc.S), sSlice}))
 }
@@ -381,8 +394,101 @@ func (e *Enc) applyContractNamed(x ssa.Value, name string, fc *FuncC, pnames []s
 	e.applyContractVars(x, name, fc, vars, sig, st)
 }
 
+// dynCall: a call through a function value. The program is closed: the callee is one of the package's
+// functions whose value is taken somewhere with this signature. The call is encoded as a case split over
+// these candidates, each through its own contract; that the value is one of them (and not nil) is an
+// obligation.
 func (e *Enc) dynCall(x *ssa.Call, st *State) {
-	panic(unsupported{"dynamic call through a function value"})
+	cc := &x.Call
+	sig := cc.Signature()
+	fv := e.term(cc.Value)
+	cands := e.p.funcValueCandidates(sig)
+	if len(cands) == 0 {
+		panic(unsupported{"dynamic call through a function value with no known candidate"})
+	}
+	var args []Val
+	for _, a := range cc.Args {
+		args = append(args, e.val(a))
+	}
+	var isOne []Term
+	for _, m := range cands {
+		isOne = append(isOne, tEq(fv, e.funcValue(m)))
+	}
+	// closed world: a value of a function type is nil or one of the functions whose value is taken
+	e.assume(tOr(append([]Term{tEq(fv, tInt(0))}, isOne...)...))
+	e.oblige("nilfunc", e.p.srcLine(x.Pos()), e.panicTags, tNot(tEq(fv, tInt(0))), x.Pos())
+	saveGuard := e.curGuard
+	var states []*State
+	var results []Val
+	for i, m := range cands {
+		name := funcName(m)
+		fc := e.p.cs.Funcs[name]
+		if fc == nil {
+			panic(unsupported{"dynamic call: candidate " + name + " has no contract"})
+		}
+		e.curGuard = tAnd(saveGuard, isOne[i])
+		s2 := st.clone()
+		e.applyContract(x, name, fc, m.Params, m.Signature, args, s2)
+		states = append(states, s2)
+		results = append(results, e.vals[x])
+	}
+	e.curGuard = saveGuard
+	merged := e.mergeStates(states, isOne)
+	*st = *merged
+	// the result: the candidate's result under its guard
+	res := results[len(results)-1]
+	for i := len(results) - 2; i >= 0; i-- {
+		res = e.iteVal(isOne[i], results[i], res)
+	}
+	e.vals[x] = res
+}
+
+func (e *Enc) iteVal(g Term, a, b Val) Val {
+	if a.Tuple != nil {
+		out := Val{}
+		for i := range a.Tuple {
+			out.Tuple = append(out.Tuple, e.iteVal(g, a.Tuple[i], b.Tuple[i]))
+		}
+		return out
+	}
+	if a.Loc != nil || b.Loc != nil {
+		panic(unsupported{"dynamic call returning an interior pointer"})
+	}
+	return Val{T: e.def("dynres", tIte(g, a.T, b.T))}
+}
+
+// funcValueCandidates: the package functions with this signature whose value is used other than by calling it.
+func (p *Program) funcValueCandidates(sig *types.Signature) []*ssa.Function {
+	p.fnValOnce.Do(func() {
+		seen := map[*ssa.Function]bool{}
+		for _, f := range p.allFuncs {
+			for _, b := range f.Blocks {
+				for _, in := range b.Instrs {
+					var callee ssa.Value
+					if c, ok := in.(ssa.CallInstruction); ok {
+						callee = c.Common().Value
+					}
+					for _, op := range in.Operands(nil) {
+						if op == nil || *op == nil {
+							continue
+						}
+						if fn, ok := (*op).(*ssa.Function); ok && *op != callee && !seen[fn] {
+							seen[fn] = true
+							p.fnValues = append(p.fnValues, fn)
+						}
+					}
+				}
+			}
+		}
+	})
+	var out []*ssa.Function
+	for _, f := range p.fnValues {
+		if types.Identical(f.Signature, sig) {
+			out = append(out, f)
+		}
+	}
+	sort.Slice(out, func(i, j int) bool { return funcName(out[i]) < funcName(out[j]) })
+	return out
 }
 
 func (e *Enc) otherInstr(in ssa.Instruction, st *State) {
